@@ -314,6 +314,9 @@ def run(prog: Program, rep: Report, tier: str = "quick") -> None:
             seen.add(key)
             rep.add(Instance(d["rule"], d["verdict"], d["module"], d["function"], d["construct"], d["line"], d.get("message", ""), d.get("detail", {})))
     n = len(roles)
+    from . import game
+
+    game.add_instances(rep, game.c04_job, [(i, tier) for i in range(n)], "R4.6", 50 * n)
     rep.floor("R4.1", 3 * n)
     rep.floor("R4.2", 2)
     rep.floor("R4.3", 2 * n)
